@@ -265,6 +265,10 @@ pub struct Desc {
     pub unit: String,
     pub source: Option<u64>,
     pub source_resolves: bool,
+    /// hash of the constant re-serialised as plain CBOR (null entries dropped): compared with the
+    /// shipped data decoded as plain CBOR, without going through the library's types
+    #[serde(default, skip_serializing_if = "String::is_empty")]
+    pub raw_hash: String,
 }
 
 #[derive(Serialize, Deserialize, Clone, Debug, PartialEq, Eq)]
